@@ -20,6 +20,15 @@ impl Tier {
             Tier::Thorough => "thorough",
         }
     }
+    /// case-count budget of a random stratum. The literals in the monitors are base values; the
+    /// tier factor (quick x5, thorough x8; override with VERIF_BUDGET=<factor>) scales them.
+    pub fn n(&self, quick: u64, thorough: u64) -> u64 {
+        let f: u64 = std::env::var("VERIF_BUDGET").ok().and_then(|s| s.parse().ok()).unwrap_or(match self {
+            Tier::Quick => 5,
+            Tier::Thorough => 8,
+        });
+        self.pick(quick, thorough) * f.max(1)
+    }
     /// pick a budget
     pub fn pick<T>(&self, quick: T, thorough: T) -> T {
         match self {
